@@ -206,7 +206,7 @@ def run(ctx):
     ctx.assume('printed precision: %10.3e -> 5e-4 relative, %10.3f -> 5e-4 absolute', 'selectors whose threshold equals an attained value are skipped (C05 don\'t-care)',
                'parameter values are position-encoding: (model+1)*10^column, so any row mix-up is visible at printed precision')
     ctx.require_events('FitInfo.filter_table:post', 'text:write_parameters', 'text:write_parameter_ranges', 'text:extract_parameters', 'plot_params:table-checked')
-    ctx.require_regimes('perm:identity', 'perm:reversed', 'perm:random', 'perm:name-sorted', 'selected:0', 'selected:1', 'selected:all', 'additional',
+    ctx.require_regimes('perm:identity', 'perm:reversed', 'perm:random', 'perm:name-sorted', 'selected:0', 'selected:1', 'selected:all', 'additional', 'additional:several',
                         'input:file', 'input:object', 'input:list')
     n_pk = 8 if ctx.quick else 40
     did_plot = False
@@ -271,7 +271,11 @@ def run(ctx):
                 ctx.regime('input:' + form)
                 additional = {}
                 if (isel + ip) % 3 == 0:
-                    additional = {'EXTRA': {n: float(1000 + 7 * i) for i, n in enumerate(names)}}
+                    additional = {'ZETA': {n: float(1000 + 7 * i) for i, n in enumerate(names)}}
+                    if (isel + ip) % 2 == 0:      # several, in non-alphabetical key order
+                        additional['ALPHA'] = {n: float(-(3 + i) * 11) for i, n in enumerate(names)}
+                        additional['MID'] = {n: float(0.5 + i) for i, n in enumerate(names)}
+                        ctx.regime('additional:several')
                     ctx.regime('additional')
                 wit = dict(perm=kind, selector=sel, input=form, n_models=n_models, columns=colnames, names=names)
                 kept = [expected_kept(r, sel)[0] for r in rr]
